@@ -684,6 +684,7 @@ impl<'de, R: Read<'de>> Parser<R> {
             Token::VecOpen(close) => {
                 self.remaining_depth -= 1;
                 if self.remaining_depth == 0 {
+                    self.remaining_depth += 1;
                     return Err(self.peek_error(ErrorCode::RecursionLimitExceeded));
                 }
 
@@ -699,6 +700,7 @@ impl<'de, R: Read<'de>> Parser<R> {
             Token::ListOpen(close) => {
                 self.remaining_depth -= 1;
                 if self.remaining_depth == 0 {
+                    self.remaining_depth += 1;
                     return Err(self.peek_error(ErrorCode::RecursionLimitExceeded));
                 }
 
@@ -767,6 +769,7 @@ impl<'de, R: Read<'de>> Parser<R> {
             Token::VecOpen(close) => {
                 self.remaining_depth -= 1;
                 if self.remaining_depth == 0 {
+                    self.remaining_depth += 1;
                     return Err(self.peek_error(ErrorCode::RecursionLimitExceeded));
                 }
 
@@ -784,6 +787,7 @@ impl<'de, R: Read<'de>> Parser<R> {
             Token::ListOpen(close) => {
                 self.remaining_depth -= 1;
                 if self.remaining_depth == 0 {
+                    self.remaining_depth += 1;
                     return Err(self.peek_error(ErrorCode::RecursionLimitExceeded));
                 }
 
